@@ -3,18 +3,19 @@ import os
 import sys
 import z3
 sys.path.insert(0, os.path.dirname(os.path.dirname(os.path.abspath(__file__))))
-from props.common import main, Run  # noqa: E402
+from props.common import main, Run, ALL_SIDECARS  # noqa: E402
 from props import faces  # noqa: E402
 from props.lemmas_hooks import SOURCE  # noqa: E402
 from pyvc.calls import Contract  # noqa: E402
 from pyvc.sorts import vbool, Val, Int  # noqa: E402
 from pyvc.state import static_ref  # noqa: E402
 
-SIDE = ("severity", "results", "analysis", "externals", "pickled_api", "loader", "hooks", "ml")
+SIDE = ALL_SIDECARS
 HOOK_FNS = ["hook.run_hook", "hook.always_check_safety", "hook.activate_safe_ml_environment", "hook.remove_hook",
             "context.FicklingContextManager.__init__", "context.FicklingContextManager.__enter__",
             "context.FicklingContextManager.__exit__", "context.check_safety"]
 BINDINGS = ["pickle.load", "_pickle.load", "pickle.loads", "_pickle.loads"]
+PK = ["@list.items:nodeowned", "@ast.lineno", "@ast.col_offset", "@iterator.pos"]     # what a dispatched checked load may touch (fresh parse)
 
 
 def install_lemmas(run):
@@ -35,10 +36,10 @@ def install_lemmas(run):
     def add(name, **kw):
         C[f"lemmas_hooks.{name}"] = Contract(f"lemmas_hooks.{name}", **kw)
     add("api_ops", params="", modifies=BINDINGS, may_raise=["Exception"], ensures=[], trusted="abstraction of any sequence of API operations")
-    add("L1_arm_global", params="f: stream?", returns="val", requires=["pickle.loads is stock_loads()"], may_raise=["Exception"], modifies=BINDINGS, ensures=[])
-    add("L1_arm_global_alias", params="f: stream?", returns="val", requires=["pickle.loads is stock_loads()"], may_raise=["Exception"], modifies=BINDINGS, ensures=[])
-    add("L1_arm_context", params="f: stream?", returns="val", requires=["pickle.loads is stock_loads()"], may_raise=["Exception"], modifies=BINDINGS, ensures=[])
-    add("L1_arm_ml", params="f: stream?, d: bytes, a: val", returns="val", may_raise=["Exception"], modifies=BINDINGS, ensures=[])
+    add("L1_arm_global", props=["no-frame"], params="f: stream?", returns="val", requires=["pickle.loads is stock_loads()"], may_raise=["Exception"], modifies=BINDINGS, ensures=[])
+    add("L1_arm_global_alias", props=["no-frame"], params="f: stream?", returns="val", requires=["pickle.loads is stock_loads()"], may_raise=["Exception"], modifies=BINDINGS, ensures=[])
+    add("L1_arm_context", props=["no-frame"], params="f: stream?", returns="val", requires=["pickle.loads is stock_loads()"], may_raise=["Exception"], modifies=BINDINGS, ensures=[])
+    add("L1_arm_ml", props=["no-frame"], params="f: stream?, d: bytes, a: val", returns="val", may_raise=["Exception"], modifies=BINDINGS, ensures=[])
     add("L1_keep_run_hook", params="", modifies=BINDINGS, ensures=["protected(pickle.load)"])
     add("L1_keep_activate", params="a: val", modifies=BINDINGS, ensures=["protected(pickle.load)"])
     add("L1_keep_enter", params="", returns="context.FicklingContextManager", modifies=BINDINGS, ensures=["protected(pickle.load)"])
